@@ -53,7 +53,12 @@ func init() {
 		if tier == "thorough" {
 			p = []plan{{"deposed3-d4", 600}, {"read3-d4", 600}, {"deposed3-d3", 120}, {"nvread5-d3", 300}}
 		}
-		return clusterCheck(prop, tier, p, []string{"leader_present", "op_acked", "read_served"}, append([]string{"at most one outstanding read-only operation per node (map iteration order inside the read-only loop is not controlled)"}, untimedAssumptions...))
+		sp := []schedPlan{{"read-newleader", 2, 40}}
+		if tier == "thorough" {
+			sp = []schedPlan{{"read-newleader", 4, 600}}
+		}
+		return clusterCheckSched(prop, tier, p, []string{"leader_present", "op_acked", "read_served"}, append([]string{"at most one outstanding read-only operation per node (map iteration order inside the read-only loop is not controlled)",
+			"SCHED scenario read-newleader: goroutine schedules inside a freshly elected leader (commit, apply and read-only loops woken by one reply) within the decision bound"}, untimedAssumptions...), nil, sp)
 	}
 	checks["C08"] = func(prop, tier string) int {
 		var p []plan
@@ -97,9 +102,14 @@ func init() {
 		if tier == "thorough" {
 			p = []plan{{"lease3-d3", 600}, {"cutlease3-d4", 600}, {"minlease5-d3", 300}}
 		}
-		return clusterCheck(prop, tier, p, []string{"leader_present", "op_acked", "read_served", "two_leaders_different_terms"}, []string{
+		sp := []schedPlan{{"lease-newleader", 2, 40}}
+		if tier == "thorough" {
+			sp = []schedPlan{{"lease-newleader", 4, 600}}
+		}
+		return clusterCheckSched(prop, tier, p, []string{"leader_present", "op_acked", "read_served", "two_leaders_different_terms"}, []string{
+			"SCHED scenario lease-newleader (untimed): goroutine schedules inside a freshly elected leader whose lease is renewed by the reply that also commits its first entry, within the decision bound",
 			"timed mode: synchronised clocks in heartbeat intervals (election timeout 6, lease 2 intervals); every message is delivered within at most one interval (lag events) unless a link is cut, so lease + delay < election timeout",
-			"at most one outstanding read per node; horizon 14-30 intervals; deviation bound per suite"})
+			"at most one outstanding read per node; horizon 14-30 intervals; deviation bound per suite"}, nil, sp)
 	}
 	checks["C15"] = func(prop, tier string) int {
 		p := []plan{{"live-rep3-d2", 160}, {"live-mem3-d2", 55}, {"live-bigsnap3-d2", 95}, {"live-snap3-d1", 35}, {"live-termgap3-d2", 40}, {"live-readd3-d2", 30}, {"live-eager3-d2", 40}}
